@@ -52,6 +52,17 @@ def parseOps (s : String) : Option (Option (List RawOp)) :=
   else if s == "-" then some (some [])
   else ((s.splitOn "/").mapM parseOp).map some
 
+/-- `vq=i:root:key:value:b,...` — verdicts of the real ics23 recorded by the harness -/
+def parseVq (s : String) : Option Lumina.Spec.C45.VmTable :=
+  if s == "-" then some []
+  else (s.splitOn ",").mapM (fun e =>
+    match e.splitOn ":" with
+    | [i, r, k, l, b] =>
+      match i.toNat?, fromHex r, fromHex k, fromHex l with
+      | some i, some r, some k, some l => some (i, r, k, l, b == "1")
+      | _, _, _, _ => none
+    | _ => none)
+
 def showProofErr : ProofError → String
   | .rootMismatch => "RootMismatch"
   | .abciProofMissing => "AbciProofMissing"
@@ -122,7 +133,14 @@ def spec (_ : Unit) (op : String) (obs : String) : String :=
         match natArg? os "amount" with
         | none => "specfail C45/unparsed"
         | some n =>
-          if specBalance Ics23.verifyMembership b.addr b.appHash b.resp (.ok n) then "specok"
+          -- `vm` = the verdicts of the REAL ics23 (`vq=`), not the model's transcription of it
+          let chain := match b.resp with
+            | some r => (opsOf (r.proofOps.getD [])).getD []
+            | none => []
+          match (arg? ws "vq").bind parseVq with
+          | none => "specfail C45/unparsed"
+          | some tbl =>
+          if specBalance (vmOfTable chain tbl) b.addr b.appHash b.resp (.ok n) then "specok"
           else
             -- the precise class of the known defect: successful ABCI answer with an EMPTY value is
             -- reported as a verified zero balance although no proof chain backs it
@@ -139,13 +157,18 @@ def spec (_ : Unit) (op : String) (obs : String) : String :=
     | some root, some keys, some leaf, some (some ops) =>
       match os with
       | ["ok"] =>
-        match opsOf ops with
-        | some chain =>
-          if specVerify Ics23.verifyMembership chain root keys leaf true && !chain.isEmpty then "specok"
+        match opsOf ops, (arg? ws "vq").bind parseVq with
+        | some chain, some tbl =>
+          if specVerify (vmOfTable chain tbl) chain root keys leaf true && !chain.isEmpty then "specok"
           else "specfail C45/verify-membership-accepts-unlinked"
-        | none => "specfail C45/verify-membership-accepts-unlinked"
+        | _, _ => "specfail C45/verify-membership-accepts-unlinked"
       | "err" :: _ => "specok"
-      | ["panic"] => "specskip"
+      | ["panic"] =>
+        -- a panic is not a pass.  The one known class: no keys at all on a non-empty chain
+        -- (`current_idx - 1` underflows); anything else is a new failure
+        if keys.isEmpty && !ops.isEmpty then
+          "specfail C45/verify-membership-no-keys-underflow ProofChain::verify_membership(root, [], leaf) on a non-empty chain: `current_idx - 1` underflows (debug-build panic)"
+        else "specfail C45/verify-membership-panic verify_membership panicked"
       | _ => "specfail C45/unparsed"
     | _, _, _, _ => "specfail C45/unparsed"
   | _ => "specfail C45/unparsed"
